@@ -131,8 +131,47 @@ def record(r, codes, names):
         cs = "".join(r.choice(OUTSIDE) for _ in range(r.randint(1, 3)))      # letters although the table is empty
     nmore = r.choice([0, 0, 0, 1, 2, 4])
     more = [phrase(r, 1, 25) for _ in range(nmore)]
-    return [name, str(niso)] + isos + [with_tag(r, 3, site), with_tag(r, 4, meth), with_tag(r, 5, phrase(r, 0, 4)),
-                                      with_tag(r, 6, phrase(r, 0, 3)), cs, phrase(r, 0, 25), str(nmore)] + more
+    forced = getattr(r, "forced56", None)
+    org = forced.pop(0) if forced else phrase(r, 0, 4)
+    src = forced.pop(0) if forced else phrase(r, 0, 3)
+    return [name, str(niso)] + isos + [with_tag(r, 3, site), with_tag(r, 4, meth), with_tag(r, 5, org),
+                                      with_tag(r, 6, src), cs, phrase(r, 0, 25), str(nmore)] + more
+
+
+# Pairs of DIFFERENT organism-like strings that are EQUAL under a common 32-bit string hash (found by birthday search over
+# ~10^5..10^6 generated names; `_h32` recomputes every hash at import, so a wrong entry fails loudly).  A parser that interns
+# or de-duplicates field values by such a hash without comparing the text (seeded change C16-l: a string pool keyed by
+# FNV-1a) returns the first string for the second record.  Random listings essentially never contain such a pair.
+def _h32(kind, b):
+    import zlib
+    if kind == "crc32": return zlib.crc32(b)
+    if kind == "adler32": return zlib.adler32(b)
+    h = {"fnv1a32": 0x811c9dc5, "fnv1_32": 0x811c9dc5, "java31": 0, "djb2": 5381}[kind]
+    for c in b:
+        if kind == "fnv1a32": h = ((h ^ c) * 0x01000193) & 0xffffffff
+        elif kind == "fnv1_32": h = ((h * 0x01000193) & 0xffffffff) ^ c
+        elif kind == "java31": h = (h * 31 + c) & 0xffffffff
+        else: h = (h * 33 + c) & 0xffffffff
+    return h
+HASH_TWINS = [("fnv1a32", "Neisseria xmbdpzxyi 985", "Thermus amwk ATCC 384"), ("fnv1a32", "Haemophilus sp. 3804", "Neisseria sp. 18860"),
+              ("fnv1_32", "Bacillus aewaw strain 739", "Escherichia rrri ATCC 505"), ("crc32", "Haemophilus nkgwyoo RFL310", "Thermus iwhl ATCC 408"),
+              ("adler32", "Haemophilus sp. 120", "Haemophilus sp. 201"), ("java31", "Arthrobacter pihemze 15", "Haemophilus yxwgtbqi ATCC 938"),
+              ("djb2", "Streptomyces enhxjqb 914", "Neisseria qnpx strain 867")]
+for _k, _a, _b in HASH_TWINS:
+    assert _a != _b and _h32(_k, _a.encode()) == _h32(_k, _b.encode()), (_k, _a, _b)
+
+
+def twins_case(r, twins):
+    """a listing whose records carry hash-twin strings as organism AND as source (first of each pair, then the second,
+    then the first again), between ordinary records"""
+    forced = []
+    for _k, a, b in twins:
+        forced += [a, b, b, a, a, a]        # records: (org a, src b), (org b, src a), (org a, src a)
+    r.forced56 = forced
+    try:
+        return listing_case(r, len(forced) // 2 + 2, probe=False)
+    finally:
+        r.forced56 = None
 
 
 def listing_case(r, nrec, nsup=None, indent=None, probe=None):
@@ -215,6 +254,9 @@ HEAD = "REBASE codes for commercial sources of enzymes"
 def cases(seed, tier):
     r = rng(seed, "C16")
     yield ["readmissing", "x"]
+    yield twins_case(r, HASH_TWINS)
+    for t in HASH_TWINS:
+        yield twins_case(r, [t])
     for ind in ["                ", "\t", ""]:
         for nrec in [0, 1, 2]:
             yield listing_case(r, nrec, indent=ind)
